@@ -664,3 +664,73 @@ def rule_lookahead(ctx, prop):
                           f"NoSingleTable the parentheses of `f(\"s\")[1]` / `f({{}}):m()` are dropped although an index or method "
                           f"call follows (or are kept where the option says to drop them)", f.loc(), cfg)
     return rep
+
+
+def rule_measurement_only(ctx, prop):
+    """format_function_call formats every suffix once with FunctionCallNextNode::None just to measure the flat chain: that copy
+    knows nothing about what follows each call, so it must never become the output"""
+    rep = Report(prop, "R-OPT(measure)", "in format_function_call, a suffix formatted with the constant FunctionCallNextNode::None (no look-ahead) "
+                                         "is used for measuring only: its value never flows to the function's return value")
+    SUFFIX_FMT = re.compile(r"formatters::(functions|expression)::(format_suffix|format_call|format_method_call|format_function_args)$")
+    SKIP_TY = re.compile(r"^(bool|usize|u\d+|i\d+|\(\)|std::string::String|shape::Shape|&?str)$")
+    for cfg, prog in ctx.programs.items():
+        f = prog.fn("stylua_lib", "formatters::functions::format_function_call")
+        if not rep.anchor(f is not None, "format_function_call", cfg):
+            continue
+        fam = [f] + [g for g in prog.fns("stylua_lib") if g.path.startswith(f.path + "::{closure")]
+
+        def const_none(g, o):
+            if is_const(o):
+                return o.get("variant") == "None" or "None" in str(o.get("pp", ""))
+            pr = provenance(g, o, through=None)
+            return bool(pr) and all((r[0] == "agg" and r[1].endswith("FunctionCallNextNode::None")) or
+                                    (r[0] == "const" and "None" in r[1]) for r in pr)
+        starts = []
+        for g in fam:
+            for b, t in g.calls():
+                if not SUFFIX_FMT.search(callee(t)):
+                    continue
+                nn = [a for a in t["args"] if (is_const(a) and "FunctionCallNextNode" in str(a.get("ty", ""))) or
+                      (not is_const(a) and g.local_ty(op_place(a)["l"]).endswith("FunctionCallNextNode"))]
+                if not nn or not all(const_none(g, a) for a in nn):
+                    continue
+                if g is f:
+                    if t.get("dst") and not t["dst"].get("p"):
+                        starts.append((t["dst"]["l"], f.loc(t["sp"])))
+                else:
+                    # the closure's value in the enclosing function: what the adaptor it is handed to produces
+                    for b2, si_, s in f.stmts():
+                        if s["k"] == "assign" and s["rv"]["k"] == "agg" and s["rv"].get("closure") == g.path:
+                            starts.append((s["dst"]["l"], g.loc(t["sp"])))
+        if not starts:
+            rep.note(f"@{cfg}: no suffix is formatted with a constant None in format_function_call (clause not evaluated)")
+            continue
+        for l0, where in starts:
+            seen, work, reaches = set(), [l0], False
+            while work:
+                l = work.pop()
+                if l in seen:
+                    continue
+                seen.add(l)
+                for u in forward_uses(f, l):
+                    if u[0] == "ret":
+                        reaches = True
+                    elif u[0] == "agg":
+                        work.append(u[2]["dst"]["l"])
+                    elif u[0] == "call":
+                        d = u[2].get("dst")
+                        if d and not d.get("p") and not SKIP_TY.search(f.local_ty(d["l"])):
+                            if d["l"] == 0:
+                                reaches = True
+                            else:
+                                work.append(d["l"])
+                    elif u[0] == "field":
+                        work.append(u[2]["dst"]["l"])
+            rep.inst(f"{f.key} suffixes formatted without look-ahead are measured, not returned", {"at": where, "locals_followed": len(seen)}, cfg, ok=not reaches)
+            if reaches:
+                rep.violation(f"{f.key} measurement-copy-returned",
+                              "format_function_call returns the call chain whose suffixes were formatted with FunctionCallNextNode::None (the "
+                              "copy made for measuring its width): no call in it was told that an index or method call follows, so under "
+                              "call_parentheses = None / NoSingleString / NoSingleTable `f(\"x\"):m()` comes out as `f \"x\":m()`",
+                              f.loc(), cfg)
+    return rep
